@@ -33,6 +33,7 @@
 #include <deque>
 #include <memory>
 #include <sched.h>
+#include <sys/syscall.h>
 #include <thread>
 #include "TFEL/System/ThreadPool.hxx"
 #include "TFEL/System/VerifHooks.hxx"
@@ -67,39 +68,65 @@ namespace {
     ::nanosleep(&ts, nullptr);
   }
 
-  //! block until occurrence counter `p` exceeds `seen` (at most ~20 ms)
-  void until(const int p, const int seen) {
-    for (int k = 0; k != 200; ++k) {
-      if (occ[p].load(std::memory_order_acquire) > seen) break;
-      sleepNs(100000);
-    }
-    sleepNs(300000);
+  //! number of wait() calls that have returned *and* been checked by the harness
+  std::atomic<int> waitChecksDone{0};
+  //! kernel id of the last thread that reached tp.wait_locked
+  std::atomic<long> lastWaiterTid{0};
+
+  //! true when thread `tid` of this process sleeps in a futex wait
+  bool blockedInFutex(const long tid) {
+    char path[64], buf[128];
+    std::snprintf(path, sizeof path, "/proc/self/task/%ld/syscall", tid);
+    const int fd = ::open(path, O_RDONLY | O_CLOEXEC);
+    if (fd == -1) return false;
+    const auto n = ::read(fd, buf, sizeof buf - 1);
+    ::close(fd);
+    if (n <= 0) return false;
+    buf[n] = 0;
+    return std::strncmp(buf, "202 ", 4) == 0;
   }
 
   /*!
-   * delay codes (ordered so that rapidcheck, which shrinks towards small
-   * values, shrinks towards the *decisive* delays):
+   * delay codes.  They are ordered so that rapidcheck, which shrinks towards
+   * small values, shrinks towards the *event based* delays, which are decisive
+   * whatever the load of the machine (their caps only bound the cost on code
+   * where the awaited event cannot happen):
    * 0 none,
-   * 1: until a thread is inside wait() holding the mutex for the next time
-   *    (event based: decisive whatever the load of the machine), 20 ms at most,
-   * 2: until the destructor has set `stop` (tp.dtor_before_join), 20 ms at most,
-   * 3: 1.5 ms, 4: 60 us, 5: yield
+   * 1: until the next wait() call has returned and has been checked by the
+   *    harness (a correct pool cannot let this happen while the task is not
+   *    finished: the cap, 25 ms, is then what elapses),
+   * 2: until a thread is blocked inside wait() on the condition variable
+   *    (tp.wait_locked reached since the delay started and that thread sleeps
+   *    in a futex wait), 25 ms at most,
+   * 3: until the destructor has set `stop` (tp.dtor_before_join), 20 ms at most,
+   * 4: 1.5 ms, 5: 60 us, 6: yield
    */
   void doDelay(const int code) {
     switch (code) {
-      case 1:
-        until(5, occ[5].load(std::memory_order_acquire));
+      case 1: {
+        const int seen = waitChecksDone.load(std::memory_order_acquire);
+        for (int k = 0; k != 250 && waitChecksDone.load(std::memory_order_acquire) == seen; ++k) sleepNs(100000);
         break;
-      case 2:
-        until(7, 0);
+      }
+      case 2: {
+        const int seen = occ[5].load(std::memory_order_acquire);
+        for (int k = 0; k != 250; ++k) {
+          if (occ[5].load(std::memory_order_acquire) > seen && blockedInFutex(lastWaiterTid.load())) break;
+          sleepNs(100000);
+        }
         break;
+      }
       case 3:
-        sleepNs(1500000);
+        for (int k = 0; k != 200 && occ[7].load(std::memory_order_acquire) == 0; ++k) sleepNs(100000);
+        sleepNs(300000);
         break;
       case 4:
-        sleepNs(60000);
+        sleepNs(1500000);
         break;
       case 5:
+        sleepNs(60000);
+        break;
+      case 6:
         ::sched_yield();
         break;
       default:
@@ -110,7 +137,8 @@ namespace {
   extern "C" void c29Hook(const char* name) {
     for (int p = 0; p != NPOINTS; ++p) {
       if (std::strcmp(name, pointNames[p]) != 0) continue;
-      const int k = occ[p].fetch_add(1, std::memory_order_relaxed);
+      if (p == 5) lastWaiterTid.store(::syscall(SYS_gettid));
+      const int k = occ[p].fetch_add(1, std::memory_order_release);
       if (k < MAXOCC && sched[p][k] != 0) {
         delaysHit.fetch_add(1, std::memory_order_relaxed);
         doDelay(sched[p][k]);
@@ -351,11 +379,13 @@ namespace {
         } else if (o.kind == WAIT) {
           pool->wait();
           checkWaited(next, "main:");
+          waitChecksDone.fetch_add(1);
         } else {
           const int n0 = next;
           helpers.emplace_back([this, n0] {
             pool->wait();
             checkWaited(n0, "helper:");
+            waitChecksDone.fetch_add(1);
           });
         }
       }
@@ -363,6 +393,7 @@ namespace {
         verif::fdWrite(fd, "final wait\n");
         pool->wait();
         checkWaited(next, "main(final):");
+        waitChecksDone.fetch_add(1);
       }
       verif::fdWrite(fd, "join helpers\n");
       for (auto& h : helpers) h.join();
@@ -445,7 +476,7 @@ namespace {
       executeOnce(c, s, ntasks);
       return;
     }
-    if (failuresSeen[c.sub()] != 0 && (++shrinkExecutions[c.sub()] > 60 || hangsSeen >= 12)) {
+    if (failuresSeen[c.sub()] != 0 && (++shrinkExecutions[c.sub()] > 150 || hangsSeen >= 12)) {
       // bounded shrinking (every execution forks and may wait for the time
       // limit): the last recorded failing script is kept
       return;
@@ -532,9 +563,9 @@ namespace {
         // biased to "none"; see doDelay for the codes.  The event based codes
         // make no sense where the pool mutex is held or in wait()/~ThreadPool
         // themselves: plain 1.5 ms there
-        const int v = static_cast<int>(c.integer(0, 7, "d"));
-        int code = v >= 6 ? 0 : v;
-        if ((code == 1 || code == 2) && !(p >= 1 && p <= 3)) code = 3;
+        const int v = static_cast<int>(c.integer(0, 20, "d"));
+        int code = v >= 7 ? 0 : v;
+        if (code >= 1 && code <= 3 && !(p >= 1 && p <= 3)) code = 4;
         sched[p][k] = code;
         if (sched[p][k] != 0) ++n;
       }
@@ -563,9 +594,9 @@ VERIF_SUB(script) {
       o.kind = ADD;
       o.rtype = static_cast<int>(c.integer(0, 3, "rtype"));
       o.throws = c.chance(1, 4, "throws") ? static_cast<int>(c.integer(1, 3, "exc")) : T_NONE;
-      o.dur = static_cast<int>(c.integer(0, 5, "dur"));
+      o.dur = static_cast<int>(c.integer(0, 12, "dur")) % 10;  // 7..9: none
       o.nested = c.chance(1, 5, "nested");
-      o.ndur = o.nested ? static_cast<int>(c.integer(0, 5, "ndur")) : 0;
+      o.ndur = o.nested ? static_cast<int>(c.integer(0, 12, "ndur")) % 10 : 0;
       ntasks += o.nested ? 2 : 1;
     } else if (k <= 7) {
       o.kind = WAIT;
